@@ -112,6 +112,48 @@ class OtherError(Exception):
     pass
 
 
+class Handoff(object):
+    """wraps task(s) that were created but deliberately NOT awaited by their creator, so that they can be returned /
+    passed on without tripping asynq.result()'s "forgot to yield" assertion"""
+
+    __slots__ = ("task",)
+
+    def __init__(self, task):
+        self.task = task
+
+
+def resolve_handoffs(r):
+    """generator helper (`r = yield from RESOLVE(r)`): awaits every handed-off task found in r, repeatedly"""
+    while True:
+        pend = []
+        for x in (r if r.__class__ in (list, tuple) else [r]):
+            if x.__class__ is Handoff:
+                pend.extend(x.task if x.task.__class__ is list else [x.task])
+        if not pend:
+            return r
+        r = yield pend
+
+
+LINKS = "awmu"
+# link of a non-leaf level k to level k+1 in the hand-off chains:
+#   a  level k creates the child and awaits it itself
+#   w  level k creates the child and hands it to a helper task Wk (created by level k) which awaits it; level k stays
+#      suspended on Wk               -> the awaiting chain differs from the creating chain, creator still suspended
+#   m  level k awaits a maker task Mk which creates the child and returns it un-awaited; level k then awaits the child
+#                                    -> the child's creator (Mk) has finished when the child runs
+#   u  level k creates the child and returns it un-awaited to whoever awaits level k (parent level, its helper Wk-1 or
+#      the harness), which awaits it  -> the child's creator (level k) has finished when the child runs
+
+
+def handoff_positions(blk, link):
+    """number of statement positions of a hand-off level function"""
+    return 1 + (1 if blk == "b" else 0) + {"a": 4, "w": 4, "m": 5, "u": 2}[link]
+
+
+def hfn_name(k, blk, link, role):
+    return "H%d_%s_%s_%s" % (k, blk, link, role)
+
+
 def chain_positions(leaf, blk):
     """number of statement positions of a level function: s0 [blk] [await] post return"""
     return 3 + (1 if blk == "b" else 0) + (0 if leaf else 1)
@@ -145,6 +187,13 @@ class ChainModule(object):
                         roles += ["cr", "cb", "co"]
                     for role in roles:
                         self._emit(k, leaf, blk, role)
+        for k in range(depth - 1):
+            self._emit_helpers(k)
+            for blk in ("d", "b"):
+                for link in LINKS:
+                    n = handoff_positions(blk, link)
+                    for role in ["p"] + ["q%d" % j for j in range(n)]:
+                        self._emit_handoff(k, blk, link, role)
         self._emit_tree()
         src = "".join(self.lines)
         linecache.cache[CHAIN_FILE] = (len(src), None, list(self.lines), CHAIN_FILE)
@@ -158,6 +207,10 @@ class ChainModule(object):
             "CHAIN": [],
             "STACKS": [],
             "TBLK": {},
+            "TLINK": {},
+            "HPROBE": None,
+            "Handoff": Handoff,
+            "RESOLVE": resolve_handoffs,
             "format_asynq_stack": _adebug.format_asynq_stack,
         }
         exec(compile(src, CHAIN_FILE, "exec"), self.ns)
@@ -208,11 +261,73 @@ class ChainModule(object):
         self._add("")
         self.info[name] = info
 
-    # a 3-level binary tree: T -> Ta, Tb -> Ta1 Ta2 / Tb1 Tb2 ; every node records its stack before and after its await
+    def _emit_helpers(self, k):
+        self._add("@asynq()")
+        self._add("def W%d(c):" % k)
+        self._add("    if HPROBE == ('W', %d):" % k)
+        self._add("        STACKS.append(format_asynq_stack())")
+        self._add("    y = yield c")
+        self._add("    while y.__class__ is Handoff:")
+        self._add("        y = yield y.task")
+        self._add("    return y")
+        self._add("")
+        self._add("")
+        self._add("@asynq()")
+        self._add("def M%d():" % k)
+        self._add("    yield None")
+        self._add("    if HPROBE == ('M', %d):" % k)
+        self._add("        STACKS.append(format_asynq_stack())")
+        self._add("    return Handoff(CHAIN[%d].asynq())" % (k + 1))
+        self._add("")
+        self._add("")
+        for h in ("W%d" % k, "M%d" % k):
+            self.info[h] = {"level": k, "leaf": False, "blk": "d", "role": "helper", "generator": True}
+
+    def _emit_handoff(self, k, blk, link, role):
+        name = hfn_name(k, blk, link, role)
+        loop = ["while y.__class__ is Handoff:", "    y = yield y.task"]
+        stmts = [["x = %d" % k]]
+        if blk == "b":
+            stmts.append(["y0 = yield DebugBatchItem('c18', %d)" % k])
+        if link == "a":
+            stmts += [["y = yield CHAIN[%d].asynq()" % (k + 1)], loop, ["z = (x, y)"], ["return z"]]
+        elif link == "w":
+            stmts += [["c = CHAIN[%d].asynq()" % (k + 1)], ["y = yield W%d.asynq(c)" % k], ["z = (x, y)"], ["return z"]]
+        elif link == "m":
+            stmts += [["h = yield M%d.asynq()" % k], ["y = yield h.task"], loop, ["z = (x, y)"], ["return z"]]
+        else:
+            stmts += [["c = CHAIN[%d].asynq()" % (k + 1)], ["return Handoff(c)"]]
+        assert len(stmts) == handoff_positions(blk, link)
+        ins = int(role[1:]) if role[0] == "q" else None
+        self._add("@asynq()")
+        self._add("def %s():" % name)
+        gen = False
+        for j, body in enumerate(stmts):
+            if ins == j:
+                self._add("    STACKS.append(format_asynq_stack())")
+            for ln in body:
+                self._add("    " + ln)
+                gen = gen or "yield" in ln
+        self._add("")
+        self._add("")
+        self.info[name] = {"level": k, "leaf": False, "blk": blk, "link": link, "role": role, "generator": gen}
+
+    # a 3-level binary tree: T -> Ta, Tb -> Ta1 Ta2 / Tb1 Tb2 ; every node records its stack before and after its await.
+    # TBLK[node]: bit0 = block on a batch item first, bit1 = yield the children as a tuple instead of a list.
+    # TLINK[node] (inner nodes): 0 = the node awaits the children it created; 1 = it hands them to a helper task TW
+    # (created by the node) that awaits them; 2 = it returns them un-awaited and whoever awaits the node awaits them
     TREE = {"T": ["Ta", "Tb"], "Ta": ["Ta1", "Ta2"], "Tb": ["Tb1", "Tb2"], "Ta1": [], "Ta2": [], "Tb1": [], "Tb2": []}
     TREE_ORDER = ["T", "Ta", "Tb", "Ta1", "Ta2", "Tb1", "Tb2"]
 
     def _emit_tree(self):
+        self._add("@asynq()")
+        self._add("def TW(owner, kids):")
+        self._add("    STACKS.append(('TW:' + owner, 0, format_asynq_stack()))")
+        self._add("    r = yield kids")
+        self._add("    r = yield from RESOLVE(r)")
+        self._add("    return r")
+        self._add("")
+        self._add("")
         for name in self.TREE_ORDER:
             kids = self.TREE[name]
             self._add("@asynq()")
@@ -222,10 +337,17 @@ class ChainModule(object):
             self._add("        yield DebugBatchItem('c18t', 0)")
             self._add("        STACKS.append(('%s', 1, format_asynq_stack()))" % name)
             if kids:
-                self._add("    if TBLK['%s'] & 2:" % name)
-                self._add("        r = yield (%s)" % ", ".join("%s.asynq()" % c for c in kids))
+                self._add("    kids = [%s]" % ", ".join("%s.asynq()" % c for c in kids))
+                self._add("    link = TLINK.get('%s', 0)" % name)
+                self._add("    if link == 2:")
+                self._add("        return Handoff(kids)")
+                self._add("    if link == 1:")
+                self._add("        r = yield TW.asynq('%s', kids)" % name)
+                self._add("    elif TBLK['%s'] & 2:" % name)
+                self._add("        r = yield tuple(kids)")
                 self._add("    else:")
-                self._add("        r = yield [%s]" % ", ".join("%s.asynq()" % c for c in kids))
+                self._add("        r = yield kids")
+                self._add("    r = yield from RESOLVE(r)")
                 self._add("    STACKS.append(('%s', 2, format_asynq_stack()))" % name)
             self._add("    return 0")
             self._add("")
@@ -239,16 +361,19 @@ class ChainModule(object):
                 return path
             path.insert(0, par[0])
 
-    def run_chain(self, names):
+    def run_chain(self, names, hprobe=None):
         """-> (value, exception, [(function name, line)] of the generated-code frames of the escaping traceback, stacks)"""
         reset_asynq()
         ns = self.ns
         ns["CHAIN"][:] = [ns[n] for n in names]
+        ns["HPROBE"] = tuple(hprobe) if hprobe else None
         del ns["STACKS"][:]
         val = exc = None
         frames = []
         try:
             val = ns[names[0]]()
+            while val.__class__ is Handoff:  # the root handed its child to the harness: compute it outside any task
+                val = val.task.value()
         except BaseException as e:  # noqa
             if isinstance(e, (KeyboardInterrupt, SystemExit, MemoryError)):
                 raise
@@ -262,13 +387,21 @@ class ChainModule(object):
             tb = None
         return val, exc, frames, list(ns["STACKS"])
 
-    def run_tree(self, blk):
+    def run_tree(self, blk, link=None):
         reset_asynq()
         ns = self.ns
         ns["TBLK"].clear()
         ns["TBLK"].update(blk)
+        ns["TLINK"].clear()
+        ns["TLINK"].update(link or {})
         del ns["STACKS"][:]
-        ns["T"]()
+        pend = [ns["T"]()]
+        while pend:  # children handed up to the harness are computed here, outside any task
+            r = pend.pop()
+            if r.__class__ is Handoff:
+                pend.extend(t.value() for t in r.task)
+            elif r.__class__ in (list, tuple):
+                pend.extend(r)
         return list(ns["STACKS"])
 
 
